@@ -2,6 +2,7 @@ package c11
 
 import (
 	"bufio"
+	"bytes"
 	"encoding/binary"
 	"encoding/json"
 	"fmt"
@@ -37,6 +38,7 @@ type Case struct {
 
 func TestMain(m *testing.M) {
 	env.Quiet()
+	env.UseClientAllocator() // records live in the client's recycling allocator, as in the running node
 	os.Setenv("VERIF_TRACK_CASE", "1")
 	pbt.RegisterReplay("schedules", replay)
 	pbt.RegisterReplay("race", replay)
@@ -62,6 +64,7 @@ type obs struct {
 	snapshotsChecked int
 	bigBlocks        int
 	abortedSaves     int
+	undoFilesChecked int
 }
 
 func readCompact(r *bufio.Reader) (uint64, error) {
@@ -119,10 +122,65 @@ func run(c Case) (*sim.Sim, *obs, error) {
 			}
 		}
 		prevIdleNoWait = op.Kind == "idle" && op.Arg%2 == 0
+		if err := checkUndoFile(s, o, c.Compress); err != nil {
+			return err
+		}
 		return checkSnapshot(s, o)
 	}}
 	s, err := sim.RunCaseOpen(c.Sim, env.Options{CompressUTXO: c.Compress}, hooks, pbt.FindingOpen)
 	return s, o, err
+}
+
+// checkUndoFile: the undo file of the tip block (written by a goroutine of its own while the commit workers change
+// the set) must hold exactly the confirmed outputs that block spent, as they were - whatever the schedule.
+func checkUndoFile(s *sim.Sim, o *obs, compressed bool) error {
+	tip := s.Tip
+	if tip == nil || tip.Parent == nil || tip.Parent.View == nil || !s.Valid(tip) {
+		return nil
+	}
+	raw, err := os.ReadFile(filepath.Join(s.Node.Dir, "undo", strconv.FormatUint(uint64(tip.Idx.Height), 10)))
+	if err != nil || len(raw) < 32 || !bytes.Equal(raw[:32], tip.Idx.Hash[:]) {
+		return nil // no undo data for this block (yet / any more), or the file of another branch
+	}
+	var want []env.Entry
+	for _, tx := range tip.Block.Txs[1:] {
+		for _, in := range tx.In {
+			k := consensus.OutKey(in.PrevHash, in.PrevIndex)
+			if c, ok := tip.Parent.View[k]; ok {
+				want = append(want, env.Entry{TxID: in.PrevHash, Vout: in.PrevIndex, Value: c.Value, Script: c.Script, Height: c.Height, Coinbase: c.Coinbase})
+			}
+		}
+	}
+	var got []env.Entry
+	rd := bufio.NewReader(bytes.NewReader(raw[32:]))
+	for {
+		l, err := readCompact(rd)
+		if err != nil {
+			break
+		}
+		buf := make([]byte, l)
+		if _, err := io.ReadFull(rd, buf); err != nil {
+			return fmt.Errorf("undo file of block %x (height %d): a record is cut short", tip.Idx.Hash[:6], tip.Idx.Height)
+		}
+		var rec utxo.UtxoRec
+		if compressed {
+			utxo.NewUtxoRecOwnC(buf, &rec, nil)
+		} else {
+			utxo.NewUtxoRecOwnU(buf, &rec, nil)
+		}
+		for vout, out := range rec.Outs {
+			if out != nil {
+				got = append(got, env.Entry{TxID: rec.TxID, Vout: uint32(vout), Value: out.Value, Script: append([]byte{}, out.PKScr...), Height: rec.InBlock, Coinbase: rec.Coinbase})
+			}
+		}
+	}
+	env.SortEntries(got)
+	env.SortEntries(want)
+	if d := env.DiffEntries(got, want); d != "" {
+		return fmt.Errorf("the undo file of block %x (height %d) does not hold the outputs that block spent (first column: file, second: model):\n%s", tip.Idx.Hash[:6], tip.Idx.Height, d)
+	}
+	o.undoFilesChecked++
+	return nil
 }
 
 func checkSnapshot(s *sim.Sim, o *obs) error {
@@ -258,6 +316,7 @@ func TestSchedules(t *testing.T) {
 			r.NonTrivial()
 		}
 		pbt.AddExtra("snapshots_checked", int64(o.snapshotsChecked))
+		pbt.AddExtra("undo_files_checked", int64(o.undoFilesChecked))
 		if x, ok := err.(*sim.Excluded); ok {
 			r.Excluded(x.Key)
 			return
